@@ -233,4 +233,52 @@ n4 := F(INT#1) * INT#10 + F(INT#0);\nEND_PROGRAM\n",
             (0, "Main.n4", "INT#Int(23)"), // F(1) = 2, F(0) = 3
         ],
     },
+    Cell {
+        name: "shift-and-rotate-values",
+        text: "PROGRAM Main\nVAR b : BYTE := BYTE#16#81; w : WORD := WORD#16#8001; d : DWORD := DWORD#16#80000001; l : LWORD := LWORD#16#4000000000000001; z : INT; n8 : INT := INT#8; n64 : INT := INT#64;\n\
+ r1 : BYTE; r2 : BYTE; r3 : BYTE; r4 : BYTE; r5 : BYTE; r6 : BYTE; r7 : WORD; r8 : WORD; r9 : DWORD; r10 : LWORD; r11 : LWORD; r12 : LWORD; r13 : LWORD; r14 : BYTE; END_VAR\n\
+r1 := ROL(b, INT#1);\nr2 := ROR(b, INT#1);\nr3 := SHL(b, INT#1);\nr4 := SHR(b, INT#1);\nr5 := ROL(b, z);\nr6 := ROR(b, n8);\nr7 := ROL(w, INT#17);\nr8 := SHL(w, INT#16);\n\
+r9 := ROR(d, INT#33);\nr10 := ROL(l, z);\nr11 := ROR(l, n64);\nr12 := ROL(l, INT#1);\nr13 := ROR(l, INT#65);\nr14 := SHR(b, INT#9);\nEND_PROGRAM\n",
+        cycles: 1,
+        expect: &[
+            (0, "Main.r1", "BYTE#Byte(3)"),
+            (0, "Main.r2", "BYTE#Byte(192)"),
+            (0, "Main.r3", "BYTE#Byte(2)"),
+            (0, "Main.r4", "BYTE#Byte(64)"),
+            (0, "Main.r5", "BYTE#Byte(129)"),  // rotation by 0 is the identity
+            (0, "Main.r6", "BYTE#Byte(129)"),  // so is a rotation by the width
+            (0, "Main.r7", "WORD#Word(3)"),    // 17 mod 16 = 1
+            (0, "Main.r8", "WORD#Word(0)"),    // everything shifted out
+            (0, "Main.r9", "DWORD#DWord(3221225472)"), // 33 mod 32 = 1: 16#C0000000
+            (0, "Main.r10", "LWORD#LWord(4611686018427387905)"),
+            (0, "Main.r11", "LWORD#LWord(4611686018427387905)"),
+            (0, "Main.r12", "LWORD#LWord(9223372036854775810)"), // 16#8000000000000002
+            (0, "Main.r13", "LWORD#LWord(11529215046068469760)"), // 65 mod 64 = 1: 16#A000000000000000
+            (0, "Main.r14", "BYTE#Byte(0)"),
+        ],
+    },
+    Cell {
+        name: "string-function-values",
+        text: "PROGRAM Main\nVAR s : STRING := 'abcdef'; big : LINT := LINT#9223372036854775807; one : INT := INT#1;\n\
+ b1 : BOOL; b2 : BOOL; b3 : BOOL; b4 : BOOL; b5 : BOOL; b6 : BOOL; b7 : BOOL; b8 : BOOL; b9 : BOOL; b10 : BOOL; n1 : INT; n2 : INT; n3 : INT; END_VAR\n\
+b1 := LEFT(s, INT#2) = 'ab';\nb2 := RIGHT(s, INT#2) = 'ef';\nb3 := MID(s, INT#2, INT#3) = 'cd';\nb4 := INSERT('abc', 'XY', INT#2) = 'abXYc';\nb5 := DELETE(s, INT#2, INT#3) = 'abef';\n\
+b6 := REPLACE(s, 'XY', INT#2, INT#3) = 'abXYef';\nb7 := CONCAT('ab', 'cd') = 'abcd';\nb8 := MID(s, big, INT#5) = 'ef';\nb9 := LEFT(s, INT#100) = s;\nb10 := DELETE(s, big, INT#4) = 'abc';\n\
+n1 := FIND(s, 'cd');\nn2 := FIND(s, 'xz');\nn3 := LEN(MID(s, one, INT#6)) + LEN('');\nEND_PROGRAM\n",
+        cycles: 1,
+        expect: &[
+            (0, "Main.b1", "BOOL#Bool(true)"),
+            (0, "Main.b2", "BOOL#Bool(true)"),
+            (0, "Main.b3", "BOOL#Bool(true)"),  // MID(IN, L, P): 2 characters from position 3
+            (0, "Main.b4", "BOOL#Bool(true)"),  // INSERT after position 2
+            (0, "Main.b5", "BOOL#Bool(true)"),  // DELETE(IN, L, P): 2 characters from position 3
+            (0, "Main.b6", "BOOL#Bool(true)"),
+            (0, "Main.b7", "BOOL#Bool(true)"),
+            (0, "Main.b8", "BOOL#Bool(true)"),  // a length beyond the end takes the rest
+            (0, "Main.b9", "BOOL#Bool(true)"),
+            (0, "Main.b10", "BOOL#Bool(true)"),
+            (0, "Main.n1", "INT#Int(3)"),
+            (0, "Main.n2", "INT#Int(0)"),
+            (0, "Main.n3", "INT#Int(1)"),
+        ],
+    },
 ];
